@@ -42,6 +42,7 @@ type pipeLedger struct {
 	direct  bool          // concurrent mode: push to the observer immediately
 	refsOf  map[string][]*operation.Reference
 	failing func() bool // fault injection: true = this WriteAnchor call fails (called without the ledger lock)
+	junk    func(next txn.SidetreeTxn) *txn.SidetreeTxn // fault injection: an unprocessable transaction delivered just before `next`
 }
 
 func (l *pipeLedger) WriteAnchor(anchor string, _ []*protocol.AnchorDocument, refs []*operation.Reference, ver uint64) error {
@@ -75,6 +76,17 @@ func (l *pipeLedger) observe() {
 	l.mu.Lock()
 	p := l.pending
 	l.pending = nil
+	if l.junk != nil && len(p) > 0 {
+		// unprocessable neighbours in the same notification: they fail and must not keep the rest from being processed
+		var mixed []txn.SidetreeTxn
+		for _, t := range p {
+			if j := l.junk(t); j != nil {
+				mixed = append(mixed, *j)
+			}
+			mixed = append(mixed, t)
+		}
+		p = mixed
+	}
 	l.mu.Unlock()
 	if len(p) > 0 {
 		l.ch <- p
@@ -161,7 +173,13 @@ type pipeline struct {
 	label    string
 }
 
-func newPipeline(r *hx.Rng, twoVers, useUnpub, concurrent bool) (*pipeline, error) {
+// pipeFix pins the otherwise PRNG-chosen batch sizes and ledger clock steps (scripted scenarios).
+type pipeFix struct {
+	max0, max1 uint
+	step       func() uint64
+}
+
+func newPipeline(r *hx.Rng, twoVers, useUnpub, concurrent bool, fix ...*pipeFix) (*pipeline, error) {
 	pl := &pipeline{twoVers: twoVers, useUnpub: useUnpub}
 	pl.p0 = hx.BaseProtocol()
 	pl.p0.MaxDeltaSize, pl.p0.MaxOperationSize, pl.p0.MaxOperationCount = 6000, 14000, uint(2+r.Intn(4))
@@ -171,6 +189,9 @@ func newPipeline(r *hx.Rng, twoVers, useUnpub, concurrent bool) (*pipeline, erro
 	pl.p1.Patches = without(hx.AllPatches, "ietf-json-patch")
 	pl.p1.MaxOperationTimeDelta = 100
 	pl.p1.MaxOperationCount = uint(1 + r.Intn(3))
+	if len(fix) > 0 && fix[0] != nil {
+		pl.p0.MaxOperationCount, pl.p1.MaxOperationCount = fix[0].max0, fix[0].max1
+	}
 	pl.cas = hx.NewMemCAS()
 	pl.store = hx.NewOpStore()
 	pl.unpub = &recUnpub{}
@@ -179,6 +200,9 @@ func newPipeline(r *hx.Rng, twoVers, useUnpub, concurrent bool) (*pipeline, erro
 	pl.ledger = &pipeLedger{now: 10, ch: make(chan []txn.SidetreeTxn), direct: concurrent, refsOf: map[string][]*operation.Reference{}, step: func() uint64 {
 		smu.Lock()
 		defer smu.Unlock()
+		if len(fix) > 0 && fix[0] != nil && fix[0].step != nil {
+			return fix[0].step()
+		}
 		return uint64(1 + stepR.Intn(120))
 	}}
 	var tpo []txnprocessor.Option
@@ -282,6 +306,9 @@ func checkC20(c *hx.Ctx) {
 		concurrent := ri%10 == 9
 		runPipeline(c, r, ri, twoVers, useUnpub, concurrent)
 	})
+	versionBoundaryScenarios(c)
+	c.Floor("version_boundary_scenarios", 8)
+	c.Floor("version_boundary_scenarios_with_old_version_operation_behind_new_one", 4)
 	c.Floor("runs:two-versions", 10)
 	c.Floor("runs:unpublished-store", 10)
 	c.Floor("runs:concurrent", 3)
@@ -298,6 +325,7 @@ func checkC20(c *hx.Ctx) {
 	c.Floor("fault:cas_write_failed", 2)
 	c.Floor("fault:anchor_write_failed", 2)
 	c.Floor("fault:submission_during_failing_batch", 2)
+	c.Floor("fault:unprocessable_transaction_in_notification", 5)
 }
 
 func runPipeline(c *hx.Ctx, r *hx.Rng, ri int, twoVers, useUnpub, concurrent bool) {
@@ -526,6 +554,9 @@ func runPipeline(c *hx.Ctx, r *hx.Rng, ri int, twoVers, useUnpub, concurrent boo
 					}
 					if d := pd.byReq[canonReq(o.OperationRequest)]; d != nil && d.Ref == "" {
 						d.Time, d.Number, d.Ref = t.TransactionTime, t.TransactionNumber, t.CanonicalReference
+						if !concurrent && d.Version != t.ProtocolVersion {
+							fail(fmt.Sprintf("operation %s was accepted under protocol version %d but batched and anchored in a transaction stamped with version %d", d.Label, d.Version, t.ProtocolVersion), nil)
+						}
 						if d.Version == 0 && t.TransactionTime >= 500 && pl.twoVers {
 							c.Count("ops_accepted_under_v0_anchored_after_v1_genesis")
 						}
@@ -648,6 +679,27 @@ func runPipeline(c *hx.Ctx, r *hx.Rng, ri int, twoVers, useUnpub, concurrent boo
 			return true
 		}
 		pl.ledger.failing = func() bool { return fire("anchor_write") }
+		if faults {
+			jr := r.Split("junk")
+			garbageAddr, _ := pl.cas.Write([]byte("neither gzip nor a core index file"))
+			pl.ledger.junk = func(next txn.SidetreeTxn) *txn.SidetreeTxn {
+				if !jr.Chance(1, 2) {
+					return nil
+				}
+				c.Count("fault:unprocessable_transaction_in_notification")
+				j := next
+				j.CanonicalReference, j.EquivalentReferences = "junk-"+next.CanonicalReference, nil
+				switch jr.Intn(3) {
+				case 0:
+					j.AnchorString = "2.EiMissingCoreIndexFilexxxxxxxxxxxxxxxxxxxxxxxxx"
+				case 1:
+					j.AnchorString = "not an anchor string"
+				default:
+					j.AnchorString = "1." + garbageAddr // a file that exists but is not a (compressed) core index file
+				}
+				return &j
+			}
+		}
 		pl.cas.WriteErr = func(int, []byte) error {
 			if fire("cas_write") {
 				return fmt.Errorf("injected CAS write failure")
@@ -823,5 +875,147 @@ func runPipeline(c *hx.Ctx, r *hx.Rng, ri int, twoVers, useUnpub, concurrent boo
 		tmu.Lock()
 		c.Sample(2, map[string]interface{}{"run": tag, "trace_head": trace[:minInt(len(trace), 12)]})
 		tmu.Unlock()
+	}
+}
+
+// versionBoundaryScenarios scripts the situation in which the queue holds operations of an older protocol version BEHIND
+// operations of a newer one: two operations of one DID are accepted under version 0; a full batch of other operations is
+// anchored and moves the ledger clock past the genesis time of version 500; an operation is accepted under version 500; the
+// version-0 pair is cut, the second one is deferred and re-queued behind the version-500 operation; one more version-500
+// operation is accepted. Every tick kind (monitor / timeout) at every point is enumerated. Oracle: every accepted operation
+// is anchored exactly once, in a transaction stamped with the version it was accepted under, and every DID resolves.
+func versionBoundaryScenarios(c *hx.Ctx) {
+	rng := c.Rng("version-boundary")
+	for variant := 0; variant < 16; variant++ {
+		r := rng.Split(fmt.Sprint(variant))
+		step := uint64(5)
+		pl, err := newPipeline(r.Split("pl"), true, false, false, &pipeFix{max0: 3, max1: 3, step: func() uint64 { return step }})
+		if err != nil {
+			c.Inconclusive("pipeline: %v", err)
+			return
+		}
+		c.Eval()
+		var trace []string
+		note := func(f string, a ...interface{}) { trace = append(trace, fmt.Sprintf(f, a...)) }
+		bad := func(what string) {
+			c.Violation(fmt.Sprintf("C20 %s :: version-boundary scenario %d", what, variant), map[string]interface{}{"trace": trace, "variant": variant})
+		}
+		acceptedVer := map[string]uint64{} // canonical request -> version in force at acceptance
+		label := map[string]string{}
+		submit := func(name string, req []byte) bool {
+			cur, _ := pl.pc.Current()
+			ver := cur.Protocol().GenesisTime
+			_, err := pl.dh.ProcessOperation(req, ver)
+			note("submit %s under v%d -> %v", name, ver, err)
+			if err != nil {
+				bad("scripted operation " + name + " was refused: " + err.Error())
+				return false
+			}
+			acceptedVer[canonReq(req)], label[canonReq(req)] = ver, name
+			return true
+		}
+		newDID := func(name string) (*CDid, bool) {
+			d, b, err := NewCDid(r.Split(name), ref.SHA256, []string{"P-256"}, 300, false, []interface{}{patchAddKeys(genKeyEntry(r, "k1"))}, nil, "o", "")
+			if err != nil {
+				panic(err)
+			}
+			d.Suffix = suffixOf(b.Req, ref.SHA256)
+			return d, submit("create-"+name, b.Req)
+		}
+		tick := func(force bool) {
+			before := pl.q.Len()
+			pl.w.VerifProcessAvailable(force)
+			note("tick force=%v: queue %d -> %d, ledger time %d", force, before, pl.q.Len(), pl.ledger.Now())
+		}
+		ok := func() bool {
+			// phase 0: DID A exists and is anchored (version 0)
+			a, fine := newDID("A")
+			if !fine {
+				return false
+			}
+			tick(true)
+			pl.ledger.observe()
+			// phase 1: a full batch of creates, then two updates of A, all under version 0
+			for _, n := range []string{"X1", "X2", "X3"} {
+				if _, fine := newDID(n); !fine {
+					return false
+				}
+			}
+			svc := func(id string) []interface{} { return []interface{}{patchAddServices(svcEntry(id, "t", "https://e.example/"+id))} }
+			u1, _ := a.Update(svc("one"), 0, 0)
+			u2, _ := a.Update(svc("two"), 0, 0)
+			if !submit("A-update-1", u1.Req) || !submit("A-update-2", u2.Req) {
+				return false
+			}
+			step = 600 // the next anchored batch moves the ledger clock past the genesis time of version 500
+			tick(false) // monitor tick: cuts exactly the full batch [X1 X2 X3]
+			step = 5
+			if pl.ledger.Now() < 500 {
+				bad("scenario defect: the ledger clock did not cross the version boundary")
+				return false
+			}
+			// phase 2: version 500 is in force; B is accepted under it while A's updates (version 0) are still queued
+			if _, fine := newDID("B"); !fine {
+				return false
+			}
+			tick(variant&2 != 0) // cuts the version-0 pair; A-update-2 is deferred and re-queued behind B
+			if _, fine := newDID("C"); !fine {
+				return false
+			}
+			if variant&4 != 0 {
+				if _, fine := newDID("D"); !fine {
+					return false
+				}
+			}
+			if pl.q.Len() >= 3 {
+				c.Count("version_boundary_scenarios_with_old_version_operation_behind_new_one")
+			}
+			tick(variant&8 != 0)
+			for k := 0; k < 8 && pl.q.Len() > 0; k++ {
+				tick(true)
+			}
+			if pl.q.Len() != 0 {
+				bad(fmt.Sprintf("queue still holds %d operations after the bounded drain", pl.q.Len()))
+				return false
+			}
+			pl.ledger.observe()
+			return true
+		}()
+		if ok {
+			// every accepted operation anchored exactly once, under the version it was accepted under
+			seen := map[string]int{}
+			pl.ledger.mu.Lock()
+			all := append([]txn.SidetreeTxn{}, pl.ledger.all...)
+			pl.ledger.mu.Unlock()
+			for _, t := range all {
+				v, _ := pl.pc.Get(t.ProtocolVersion)
+				ops, err := v.OperationProvider().GetTxnOperations(&t)
+				if err != nil {
+					bad(fmt.Sprintf("anchored transaction %s cannot be read back under its stamped version %d: %v", t.CanonicalReference, t.ProtocolVersion, err))
+					ok = false
+					break
+				}
+				for _, o := range ops {
+					k := canonReq(o.OperationRequest)
+					seen[k]++
+					if av, known := acceptedVer[k]; known && av != t.ProtocolVersion {
+						bad(fmt.Sprintf("operation %s was accepted under protocol version %d but batched and anchored in a transaction stamped with version %d", label[k], av, t.ProtocolVersion))
+						ok = false
+					}
+				}
+			}
+			for k, name := range label {
+				if ok && seen[k] != 1 {
+					bad(fmt.Sprintf("operation %s anchored %d times (expected exactly once)", name, seen[k]))
+					ok = false
+				}
+			}
+		}
+		pl.obs.Stop()
+		if !ok {
+			return
+		}
+		c.Count("version_boundary_scenarios")
+		c.Distinct(fmt.Sprintf("version-boundary-%d", variant))
 	}
 }
